@@ -16,7 +16,8 @@ RULE = ('Hypothesis draws a type map {governing value (INTEGER or OID) -> type f
         'and always with resolution off - a field holding exactly encode(inner value) (header and end-of-octets included); id, z '
         'and the remainder are unaffected; a caller-supplied openTypes map overrides the default one (also for values the '
         'default map lacks); the default map is filled before the container type is built, after it, or grown after it (it is '
-        'documented as held by reference). Non-trivial = constructed inner value, tagged ANY, SET container or override present; distinct = '
+        'documented as held by reference); the governing component may be declared DEFAULT (and then be absent from the '
+        'wire); a caller map used for one container type and then for its twin without default map leaves the twin\'s field raw. Non-trivial = constructed inner value, tagged ANY, SET container or override present; distinct = '
         'distinct (map, container, value, codec, switches).')
 ASSUMPTIONS = ['values are compared by abstract content (pv/core/absval.py)']
 SHARDS = {'quick': (16, 120), 'thorough': (16, 4000)}
@@ -71,9 +72,13 @@ def make_schema(case, override=False):
         blob = any_
     cls = univ.Sequence if case['container'] == 'SEQUENCE' else univ.Set
     govs = keycls()
+    id_nt = namedtype.NamedType('id', govs)
+    if case.get('gov_default') is not None:
+        # the governing component is declared DEFAULT: when the value equals the default it is not on the wire at all
+        id_nt = namedtype.DefaultedNamedType('id', keycls(gov_py(gk, case['gov_default'])))
     z = univ.Integer().subtype(implicitTag=ptag.Tag(ptag.tagClassContext, ptag.tagFormatSimple, 9))
     sch = cls(componentType=namedtype.NamedTypes(
-        namedtype.NamedType('id', govs), namedtype.NamedType('blob', blob, openType=ot), namedtype.NamedType('z', z)))
+        id_nt, namedtype.NamedType('blob', blob, openType=ot), namedtype.NamedType('z', z)))
     tmap.update(entries)
     return sch, inner
 
@@ -130,6 +135,8 @@ def run_case(case):
         switches = [('resolve', {'decodeOpenTypes': True}), ('raw', {})]
         if case.get('override'):
             switches.append(('override', None))
+        if mapped:
+            switches.append(('carried', None))
         for sw, opts in switches:
             sub = '%s-%s' % (sw, cname)
             expect_typed = mapped if sw == 'resolve' else (sw == 'override')
@@ -139,7 +146,16 @@ def run_case(case):
                 keycls = univ.ObjectIdentifier if gk == 'OID' else univ.Integer
                 opts = {'openTypes': {keycls(g): ov}, 'decodeOpenTypes': case['override'] == 'with-flag'}
                 chk_sch = ov
-            d = lib.decode(codec, e.value, sch, **opts)
+            dsch = sch
+            if sw == 'carried':
+                # one caller-supplied map (holding an unrelated entry) serves two decodings: first under this container type,
+                # then under its twin whose default map is empty - there the governing value is unmapped, the field stays raw
+                keycls = univ.ObjectIdentifier if gk == 'OID' else univ.Integer
+                caller = {keycls((1, 3, 6, 9999, 1) if gk == 'OID' else 9999): univ.Null()}
+                opts = {'openTypes': caller, 'decodeOpenTypes': True}
+                lib.decode(codec, e.value, sch, **opts)
+                dsch, _inner2 = make_schema(dict(case, map=[], fill='early'))
+            d = lib.decode(codec, e.value, dsch, **opts)
             if not d.ok:
                 F(sub, 'decode-raises', '%s | e=%s field=%s inner=%s' % (d.brief(), e.value.hex()[:120], case['field'], ir.show_type(Tin)[:60]), d.sig)
                 continue
@@ -222,6 +238,10 @@ def run_shard(desc, seed, tier, col):
         if Tin['k'] in PERMISSIVE and not Tin.get('tags') and d.pct(60):
             case['override'] = d.pick(['with-flag', 'map-only'])
         case['fill'] = d.pick(['early', 'early', 'late', 'grow'])
+        if d.pct(35):
+            case['gov_default'] = gov if d.pct(65) else mp[0][0]
+            if case['field'] == 'any':
+                case['field'] = 'any-explicit'      # an untagged ANY after a component that may be absent would be ambiguous
         return case
 
     def body(case):
@@ -229,7 +249,7 @@ def run_shard(desc, seed, tier, col):
         nontriv = ir.depth(Tin) >= 1 or case['field'] != 'any' or case['container'] == 'SET' or bool(case.get('override'))
         feats = ['field:' + case['field'], 'container:' + case['container'], 'gov:' + case['gov_kind'],
                  'mapped' if any(k == case['gov'] for k, _t in case['map']) else 'unmapped',
-                 'inner:constructed' if ir.depth(Tin) >= 1 else 'inner:primitive'] + (['override'] if case.get('override') else []) + ['map-fill:' + case['fill']]
+                 'inner:constructed' if ir.depth(Tin) >= 1 else 'inner:primitive'] + (['override'] if case.get('override') else []) + ['map-fill:' + case['fill']] + (['governor-DEFAULT' + ('=value' if case.get('gov_default') == case['gov'] else '')] if case.get('gov_default') is not None else [])
         col.case(case, nontriv, feats, sample={'map': [[k, ir.show_type(t)[:60]] for k, t in case['map']], 'container': case['container'],
                                                'field': case['field'], 'governing_value': case['gov'], 'inner_type': ir.show_type(Tin)[:80],
                                                'inner_values': absval.short(case['inner_values'], 100)})
